@@ -1,5 +1,5 @@
 # replay of a bounded stand-in violation (C15): re-run native/c15_hbar.py
 import sys
-print('bosonic CX-CZ: parity at hbar=2.0 is [0.92102, 0.78619, 0.83527], at hbar=0.5 it is [0.23026, 0.19655, 0.83527]')
+print('gaussian homodyne-select hbar=0.5: running the same program a second time gives mean_photon = [0.0, 0.23339], the first run gave [0.0, 0.09419]')
 print('REPLAY-VIOLATION')
 sys.exit(1)
